@@ -35,6 +35,18 @@ type stockPayload struct {
 	Note   string
 }
 
+// stockInfoPayload carries per-event key material (encrypt.EventWrapperInfo); an empty event id is
+// the caller's mistake: the encrypt filter refuses the event, and goes on working for the others.
+type stockInfoPayload struct {
+	Name   string `class:"sensitive"`
+	Secret string `class:"secret"`
+	evID   string
+}
+
+func (p *stockInfoPayload) EventId() string  { return p.evID }
+func (p *stockInfoPayload) HmacSalt() []byte { return nil }
+func (p *stockInfoPayload) HmacInfo() []byte { return nil }
+
 // stockOut collects what the writer sinks received. Fixed arrays and plain
 // stores only (norace, no append/copy): if the library fails to serialise two
 // writers, the race detector must point at the library, not at this buffer.
@@ -85,10 +97,17 @@ func (c *stockCounters) add(sent, errs, recv int) { c.sent += sent; c.sendErr +=
 //go:norace
 func (c *stockCounters) snapshot() stockCounters { return *c }
 
-func stockSender(b *el.Broker, cnt *stockCounters, id, n int, gatedEvery int, rotEvery int) {
+func stockSender(b *el.Broker, cnt *stockCounters, id, n int, gatedEvery int, rotEvery int, infoEvery int) {
 	for i := 0; i < n; i++ {
 		simrt.Yield("stock:send")
 		var payload interface{} = &stockPayload{ID: id*100 + i, Name: fmt.Sprintf("name-%d-%d", id, i), Secret: "s3cr3t", Note: "note"}
+		if infoEvery > 0 && i%infoEvery == 0 {
+			ip := &stockInfoPayload{Name: fmt.Sprintf("name-%d-%d", id, i), Secret: "s3cr3t", evID: fmt.Sprintf("ev-%d-%d", id, i)}
+			if (id+i)%2 == 0 {
+				ip.evID = "" // refused by the encrypt filter (an error for THIS event only)
+			}
+			payload = ip
+		}
 		if rotEvery > 0 && i%rotEvery == rotEvery-1 {
 			// an in-band key rotation: every encrypt filter the event reaches rotates and consumes it
 			payload = &encRotate{w: newAead(keyBytes(20+id), fmt.Sprintf("inband-%d-%d", id, i)), salt: []byte("s2"), info: []byte("i2")}
@@ -293,7 +312,12 @@ func runStock(rc *RunCtx) {
 		if usesEncrypt && tp.Choose(3, "inband-rotation") == 0 {
 			re = 1 + tp.Choose(3, "rotevery")
 		}
-		sim.Spawn(fmt.Sprintf("sender%d", s), func() { stockSender(b, cnt, s, n, ge, re) })
+		ie := 0
+		if usesEncrypt && tp.Choose(3, "per-event-key-info") == 0 {
+			ie = 1 + tp.Choose(3, "infoevery")
+			simrt.Probe("stock.per-event-key-info")
+		}
+		sim.Spawn(fmt.Sprintf("sender%d", s), func() { stockSender(b, cnt, s, n, ge, re, ie) })
 	}
 	nControl := tp.Choose(3, "ncontrol")
 	for c := 0; c < nControl; c++ {
